@@ -19,7 +19,7 @@ RULE = (
 ASSUMPTIONS = [
     "a step is asked for k individuals with a population of at least k individuals (k <= n); weight vectors are non-negative and not all zero",
     "HalfAndHalfInitializer is driven with bound initialize methods and with initialiser objects",
-    "the adaptive / parameterless GP variants change the size on purpose and are out of scope",
+    "the adaptive / parameterless GP variants (AdaptiveGeneticProgramming, AjustPopulationSizeStep) change the size on purpose and are out of scope; their self-adjusting mutation / crossover steps are ordinary steps and are driven as leaves and inside nestings",
 ]
 PLAN = {
     "quick": {"shards": 8, "shard_timeout": 400, "case_timeout": 30, "grid_sizes": [2, 3, 4, 5, 7, 10, 11], "nest": 300, "gp": 40, "max_case_timeouts": 3},
@@ -31,7 +31,10 @@ THRESHOLDS = {
 }
 
 WEIGHTS = [0, 0.5, 1, 2, 3, 5, 90]
-LEAVES = ["elitism", "novelty", "tournament", "mutation", "crossover", "identity", "evaluate"]
+LEAVES = ["elitism", "novelty", "tournament", "mutation", "crossover", "identity", "evaluate", "adaptive-mutation", "adaptive-crossover", "parameterless-crossover"]
+# the steps a random nesting draws from: the five plain ones, and (less often) the self-adjusting mutation / crossover steps of
+# adaptive.py and parameterless.py - under a combinator they also meet slices of size 0
+NEST_LEAVES = LEAVES[:5] * 3 + LEAVES[7:]
 FORMS = ["list", "population", "iterator"]
 
 
@@ -43,6 +46,7 @@ def make_leaf(name, rng=None):
     from geneticengine.algorithms.gp.operators.mutation import GenericMutationStep
     from geneticengine.algorithms.gp.operators.novelty import NoveltyStep
     from geneticengine.algorithms.gp.operators.selection import TournamentSelection
+    from geneticengine.algorithms.gp import adaptive, parameterless
 
     p = rng.choice([0.0, 0.5, 1.0]) if rng else 1.0
     ts = rng.choice([1, 2, 3, 5, 13]) if rng else 2
@@ -55,6 +59,9 @@ def make_leaf(name, rng=None):
         "crossover": lambda: GenericCrossoverStep(p),
         "identity": lambda: IdentityStep(),
         "evaluate": lambda: EvaluateStep(),
+        "adaptive-mutation": lambda: adaptive.GenericAdaptiveMutationStep(p),
+        "adaptive-crossover": lambda: adaptive.GenericAdaptiveCrossoverStep(p),
+        "parameterless-crossover": lambda: parameterless.GenericAdaptiveCrossoverStep(p),
     }[name]()
 
 
@@ -72,7 +79,7 @@ def build(spec, rng=None):
 
 def gen_spec(rng, depth=0):
     if depth >= 3 or rng.random() < 0.35:
-        return rng.choice(LEAVES[:5])
+        return rng.choice(NEST_LEAVES)
     k = rng.choice(["seq", "par", "par", "xpar"])
     n = rng.choice([2, 2, 3])
     subs = [gen_spec(rng, depth + 1) for _ in range(n)]
